@@ -246,3 +246,17 @@ let rule = function
 let of_rule r = L [A "rule"; of_head r.rhead; L (List.map of_bformula r.rbody)]
 let program = function L (A "program" :: rs) -> List.map rule rs | e -> bad "program: %s" (to_string e)
 let of_program rs = L (A "program" :: List.map of_rule rs)
+
+(* ---- problems ---- *)
+open M.Problem
+let prole = function A "axiom" -> PAxiom | A "conjecture" -> PConjecture | e -> bad "problem role: %s" (to_string e)
+let of_prole = function PAxiom -> A "axiom" | PConjecture -> A "conjecture"
+let pformula = function
+  | L [ A "pf"; n; r; f ] -> { pf_name = str n; pf_role = prole r; pf_formula = formula f }
+  | e -> bad "problem formula: %s" (to_string e)
+let of_pformula a = L [ A "pf"; of_str a.pf_name; of_prole a.pf_role; of_formula a.pf_formula ]
+let problem = function
+  | L (A "problem" :: n :: fs) -> { pb_name = str n; pb_formulas = List.map pformula fs }
+  | e -> bad "problem: %s" (to_string e)
+let of_problem p = L (A "problem" :: of_str p.pb_name :: List.map of_pformula p.pb_formulas)
+let decomposition = function A "independent" -> DIndependent | A "sequential" -> DSequential | e -> bad "decomposition: %s" (to_string e)
